@@ -70,7 +70,15 @@ JudgeDF1(fn, x, e) == IF x.log = e.log /\ x.how = e.how THEN <<>> ELSE << <<"BAD
 JudgeDF(r) == LET e == DeferLog(r.p) IN JudgeDF1("defer", r.o.func, e) \o JudgeDF1("defer!", r.o.mac, e)
 NGuards(log) == Cardinality({i \in DOMAIN log : IsGuard(log[i])})
 
-Judge(r) == CASE r.k = "sl" -> JudgeSL(r) [] r.k = "dr" -> JudgeDR(r) [] r.k = "it" -> JudgeIT(r) [] r.k = "oh" -> JudgeOH(r)
+\* guards created INSIDE a deferred closure (it runs at scope exit, during an unwind when the scope is left by a panic): the closure
+\* is a scope of its own - its guards run when it ends, last created first, each exactly once, however the outer scope was left
+NestedExpected(n) == <<11, 10, -11>> \o [i \in 1..n |-> 110 + i] \o <<-119>> \o [i \in 1..n |-> -(110 + (n + 1 - i))]
+JudgeDN(r) == LET want == NestedExpected(r.n)  how == IF r.x = "panic" THEN "panicked" ELSE "returned"
+                  bad(route, o) == IF o.how # how THEN << <<"BAD", "defer-nested", route, "left-differently", r.x>> >>
+                                   ELSE IF o.log # want THEN << <<"BAD", "defer-nested", route, IF Len(o.log) < Len(want) THEN "closure-not-run" ELSE "order-or-count", r.x>> >>
+                                   ELSE <<>> IN
+              bad("func", r.o.func) \o bad("mac", r.o.mac)
+Judge(r) == CASE r.k = "dn" -> JudgeDN(r) [] r.k = "sl" -> JudgeSL(r) [] r.k = "dr" -> JudgeDR(r) [] r.k = "it" -> JudgeIT(r) [] r.k = "oh" -> JudgeOH(r)
               [] r.k = "tw" -> JudgeTW(r) [] r.k = "st" -> JudgeST(r) [] r.k = "ts" -> JudgeTS(r) [] r.k = "df" -> JudgeDF(r)
 \* a record is non-trivial when the helper had something to do
 NT(r) == LET nt(b) == IF b THEN "nt" ELSE "tr" IN
@@ -82,6 +90,7 @@ NT(r) == LET nt(b) == IF b THEN "nt" ELSE "tr" IN
            [] r.k = "st" -> nt(MultiByte(r) \/ ~ToBool(r.a))
            [] r.k = "ts" -> nt(r.b # <<>> /\ EndsWithStr(r.a, r.b))
            [] r.k = "df" -> nt(NGuards(r.o.func.log) >= 2)
+           [] r.k = "dn" -> nt(r.n >= 1)
 
 VARIABLES l
 Init == l = 1 /\ TLCSet(1, <<>>)
